@@ -175,7 +175,8 @@ def run(tier, seed):
     for k, v in classes.items():
         res.clause(k, v)
     res.coverage.update(
-        distinct_nontrivial=pu.distinct_nontrivial(obs), exhaustive=True, map_evaluations=classes.get("maps", 0), calls=len(obs),
+        distinct_nontrivial=pu.distinct_nontrivial(obs), exhaustive=True, map_evaluations=classes.get("maps", 0), batch_calls=res.coverage.get("evaluations", 0),
+        evaluations=max(classes.get("maps", 0), res.coverage.get("evaluations", 0)), calls=len(obs),
         rule="every map over {-1,0,1,2} on 1x1, 1x2, 1x3, 1x4, 2x1, 3x1, 4x1, 2x2, 2x3, 3x2 (set equality with the spec's space decided by TLC) and on 3x3 (%s), "
              "each at thresholds -2, 0, 1 in batches of varying (samples x channels); random (2x2)-batches of 2x2 maps; seeded random maps up to 24x24; "
              "%d integer-quantised Gaussian bumps (sigma %s quarter-px, centres at -1/4, 0, +1/4 px from a cell - half-cell ties excluded -, >= 3 cells from the border) at patch 3/5/7. "
